@@ -26,11 +26,12 @@ pub fn check(tier: Tier) -> Check {
             tier.pick(40, 600),
         ));
     }
+    parts.push(Part::new("C05/wide", json!({"n": 600}), 0, 120));
     Check {
         also_rel: false,
         property: "C05",
         level: "model_checking",
-        rule: "all event sequences (operation starts, conformant acknowledgements in every order with distinguishing content, delayed / spurious polls as deviations) up to the stated depth and deviation bound; non-trivial = an execution in which at least one acknowledgement completed an operation".into(),
+        rule: "all event sequences (operation starts, conformant acknowledgements in every order with distinguishing content, delayed / spurious polls as deviations) up to the stated depth and deviation bound; plus 9 deterministic runs with 600 operations of all kinds outstanding at once (packet identifiers spanning several multiples of 256 and the wrap) acknowledged in three permutations; non-trivial = an execution in which at least one acknowledgement completed an operation".into(),
         assumptions: vec![
             "broker events are conformant (acknowledgements only for outstanding identifiers)".into(),
             "futures-channel is in the trusted base".into(),
@@ -120,7 +121,62 @@ pub fn deviations(sys: &Sys, ctx_too: bool) -> Vec<Ev> {
     d
 }
 
+/// Many operations of all kinds outstanding at once, packet identifiers spanning several multiples of
+/// 256, acknowledged in three different permutations: correlation must not depend on identifier
+/// values being small or close together.
+fn wide(name: String, params: Value) -> Scenario {
+    Box::new(move |chz, ex| {
+        let n = params["n"].as_u64().unwrap_or(600) as usize;
+        let order = chz.choose(3);
+        let start_pid = [200u16, 65000, 1][chz.choose(3)];
+        let mut sys = Sys::new("C05", &name, chz);
+        sys.params = params.clone();
+        sys.m.check_client_acks = false;
+        sys.bring_up(vec![]);
+        sys.w.handle().verif_set_ids(start_pid, 100);
+        sys.events.push(format!("PresetCounters({}, 100)", start_pid));
+        let specs = op_specs();
+        for i in 0..n {
+            sys.apply(Ev::Start(specs[i % specs.len()].clone()));
+            if sys.dead {
+                return sys.report(ex, &[]);
+            }
+        }
+        let idx: Vec<usize> = match order {
+            0 => (0..n).rev().collect(),
+            1 => (0..7).flat_map(|r| (0..n).filter(move |i| i % 7 == r)).collect(),
+            _ => (0..n).map(|i| (i * 257) % n).collect::<Vec<_>>(),
+        };
+        let mut seen = vec![false; n];
+        for i in idx {
+            if seen[i] {
+                continue;
+            }
+            seen[i] = true;
+            if matches!(sys.m.ops[i].spec, OpSpec::Ping) {
+                sys.apply(Ev::Deliver(SPacket::Pingresp));
+                continue;
+            }
+            let tag = format!("r{}", i);
+            while let Some(p) = sys.ack_for(i, if i % 5 == 0 { 0x80 } else { 0 }, &tag).or_else(|| sys.ack_for(i, 0, &tag)) {
+                let fail_comp = matches!(sys.m.ops[i].st, St::AwaitComp);
+                let p = if fail_comp { sys.ack_for(i, 0, &tag).unwrap() } else { p };
+                sys.apply(Ev::Deliver(p));
+                if sys.dead {
+                    return sys.report(ex, &[]);
+                }
+            }
+        }
+        sys.finish();
+        sys.events = vec![format!("{} operations outstanding from packet id {}, acknowledged in permutation {}", n, start_pid, order)];
+        sys.report(ex, &["puback", "pubcomp", "suback", "unsuback", "pingresp"]);
+    })
+}
+
 pub fn scenario(name: &str, params: &Value) -> Scenario {
+    if name == "C05/wide" {
+        return wide(name.to_string(), params.clone());
+    }
     let depth = params["depth"].as_u64().unwrap_or(5) as usize;
     let params = params.clone();
     let name = name.to_string();
